@@ -10,5 +10,6 @@ CONSTANTS
   c2 = c2
   c3 = c3
   Ctr = {c1, c2, c3}
+  StrictReserve = FALSE
 SYMMETRY Symm
-INVARIANTS TypeOK Inv_ExclDisjoint Inv_ExclInPoolShared Inv_ExclInOthersTold Inv_ToldWithinAllowed Inv_ReservedMisuse Inv_SharedCapacity Inv_ReservedCapacity Inv_IsolatedAllOrNone Inv_SharedHasNoIsolated Inv_IsolatedOnlyByGrant Inv_Ledger Inv_Quiescent Inv_LiveHoldsGrant Inv_GrantsAreLive
+INVARIANTS TypeOK Inv_ExclDisjoint Inv_ExclInPoolShared Inv_ExclInOthersTold Inv_ToldWithinAllowed Inv_ReservedMisuse Inv_SharedCapacity Inv_ReservedCapacity Inv_IsolatedAllOrNone Inv_SharedHasNoIsolated Inv_IsolatedOnlyByGrant Inv_Ledger Inv_Quiescent Inv_LiveHoldsGrant Inv_GrantsAreLive Inv_ReinstateAnyOrder
